@@ -15,11 +15,15 @@ pub struct Scripted {
     script: Vec<i64>,
     next: usize,
     pub calls: Vec<Value>,
+    /// hard failures: script entry -1 = this read fails for good (BrokenPipe); `fail_seek` = the n-th seek (1-based) fails
+    pub fail_seek: usize,
+    seeks: usize,
+    pub hard: usize,
 }
 
 impl Scripted {
     pub fn new(data: Vec<u8>, script: Vec<i64>) -> Self {
-        Self { data, pos: 0, script, next: 0, calls: vec![] }
+        Self { data, pos: 0, script, next: 0, calls: vec![], fail_seek: 0, seeks: 0, hard: 0 }
     }
 }
 
@@ -30,6 +34,11 @@ impl deku::no_std_io::Read for Scripted {
         if step == Some(0) {
             self.calls.push(json!(["r", buf.len(), -1]));
             return Err(std::io::Error::from(std::io::ErrorKind::Interrupted));
+        }
+        if step == Some(-1) {
+            self.calls.push(json!(["r", buf.len(), -2]));
+            self.hard += 1;
+            return Err(std::io::Error::from(std::io::ErrorKind::BrokenPipe));
         }
         let avail = self.data.len() - self.pos;
         let mut n = buf.len().min(avail);
@@ -51,6 +60,12 @@ impl deku::no_std_io::Seek for Scripted {
             SeekFrom::End(o) => (2, o, self.data.len() as i64 + o),
             SeekFrom::Current(o) => (1, o, self.pos as i64 + o),
         };
+        self.seeks += 1;
+        if self.seeks == self.fail_seek {
+            self.calls.push(json!(["s", code, off, -2]));
+            self.hard += 1;
+            return Err(std::io::Error::from(std::io::ErrorKind::BrokenPipe));
+        }
         if new < 0 {
             self.calls.push(json!(["s", code, off, -1]));
             return Err(std::io::Error::from(std::io::ErrorKind::InvalidInput));
@@ -97,6 +112,7 @@ pub fn cmd_reader() {
         }
         let mut rd = Scripted::new(data, script.clone());
         rd.pos = prefix;
+        rd.fail_seek = v["fail_seek"].as_u64().unwrap_or(0) as usize;
         let r = catch_unwind(AssertUnwindSafe(|| Frame::from_reader(&mut rd)));
         let (mut o, mut outcome) = proj(r);
         if chain && outcome == "ok" {
@@ -122,7 +138,7 @@ pub fn cmd_reader() {
         }
         let plain1 = proj(catch_unwind(AssertUnwindSafe(|| Frame::from_bytes(&bytes))));
         let ev = json!({"ev": "rdecode", "bytes": bytes, "script": script, "calls": rd.calls, "consumed": rd.next,
-                        "out": o, "outcome": outcome, "plain": plain0.0, "again": plain1.0, "tag": v["tag"].as_str().unwrap_or("")});
+                        "out": o, "outcome": outcome, "hard": rd.hard, "plain": plain0.0, "again": plain1.0, "tag": v["tag"].as_str().unwrap_or("")});
         serde_json::to_writer(&mut out, &ev).unwrap();
         out.write_all(b"\n").unwrap();
     }
